@@ -161,6 +161,47 @@ pub fn driver(tier: Tier, path: &str) -> i32 {
         writeln!(ctx.out, "to_jmespath|{} => {}", repr, tj).ok();
         ctx.lines += 1;
     }
+    // size ladder: arrays, strings and objects of every size 0..=300 (and some larger ones)
+    {
+        let sizes: Vec<usize> = (0..=300).chain([511, 512, 513, 1023, 1024, 1025, 4096, 65535, 65536, 65537]).collect();
+        let lexprs: Vec<(Expression<'static>, rparse::Parsed, &'static str)> = ["length(@)", "@ | length(@)", "[length(@), length(@)]", "sort(@) | length(@)", "reverse(@) | length(@)", "to_string(length(@))"]
+            .iter()
+            .map(|e| (jmespath::compile(e).unwrap(), rparse::parse(e).unwrap(), *e))
+            .collect();
+        for n in sizes {
+            let arr = Value::Array((0..n).map(|i| json!((i * 7) % 11)).collect());
+            let s = Value::String("é".repeat(n));
+            let mut m = serde_json::Map::new();
+            for i in 0..n {
+                m.insert(format!("k{}", i), json!(i));
+            }
+            let obj = Value::Object(m);
+            for (kind, v) in [("array", &arr), ("string", &s), ("object", &obj)] {
+                let rc = crate::implx::value_to_var(v);
+                for (e, p, text) in &lexprs {
+                    if kind != "array" && (text.starts_with("sort") || text.starts_with("reverse") && kind == "object") {
+                        continue;
+                    }
+                    let got = match guarded(|| e.search(&rc)) {
+                        Ok(r) => render(r),
+                        Err(m) => format!("PANIC {}", m),
+                    };
+                    let want = Eval::builtin().search(&p.tree, v);
+                    let ok = match (&want, &got) {
+                        (Ok(V::J(w)), g) if g.starts_with("ok ") => serde_json::from_str::<Value>(&g[3..]).map_or(false, |gv| deep_eq(w, &gv)),
+                        (Err(err), g) if g.starts_with("err ") => g == &format!("err {:?}", err.class),
+                        _ => false,
+                    };
+                    if !ok {
+                        ctx.mismatches += 1;
+                        writeln!(ctx.out, "MISMATCH size|{} of {}|{} => {} (reference: {})", kind, n, text, got, crate::oracle::ref_brief(&want)).ok();
+                    }
+                    writeln!(ctx.out, "size|{} of {}|{} => {}", kind, n, text, got).ok();
+                    ctx.lines += 1;
+                }
+            }
+        }
+    }
     // Vec / Option / tuple inputs (generic path in every configuration)
     ctx.case("Vec<u8>", "[0,255]", &json!([0, 255]), &|e| e.search(vec![0u8, 255]));
     ctx.case("Option<i32>", "None", &Value::Null, &|e| e.search(None::<i32>));
